@@ -38,6 +38,22 @@ CHECKS = {
         note="Single-field changes only; one deterministic key/signature set; ancillary data only absent (uninhabited without future_snark); protocol-message values from the honest hex/decimal grammar; phi_f changes required to show only at >= one U8F24 unit independent of rounding convention. Trusted: sha2, chrono, serde_json as parser of the harness emitter, chain-builder fixtures.",
         design="§4 C04",
     ),
+    "C05": dict(
+        level="exploration",
+        engine="mc-decode",
+        technique="bounded exhaustive input enumeration (blind short strings, boundary-u64 prefixes, every single structural deviation of honest encodings at every nesting level, pairs of length fields, nesting bombs) in crash-isolating worker subprocesses with a counting allocator",
+        text="Every public decoding entry point of the wire types (45 decoder groups: STM from_bytes in CBOR and legacy layouts, their serde forms, bincode and JSON Merkle proofs, ProtocolKey json-hex / bytes-hex / try_from(&str) for every key type, OpCert / KES / ed25519 / DMQ message bytes, and the message-to-entity conversions of certificates, registrations, signatures, stake distributions and proof messages) is executed on the real code over an explicitly enumerated space of 1.7M (quick) / 15.6M (thorough) inputs. Each decode runs in a worker subprocess on an explicit 8 MiB stack with a counting allocator, so a panic, abort, stack overflow, hang (60 s, re-run alone before being reported) or single allocation above max(64 MiB, 1024 x input length) is attributed to its exact input; honest values incl. golden fixtures and u64-extreme fields must round-trip through every form.",
+        note="Default cargo features (no future_snark: SNARK decoders are not covered). Overflow-checks on. Legacy honest encodings are written by the harness; the CBOR mirror envelopes are self-checked byte-for-byte against the real to_bytes at start-up. Third-party decoders are exercised only through Mithril entry points. The space is exhaustive inside the stated alphabets and silent beyond them.",
+        design="§4 C05",
+    ),
+    "C06": dict(
+        level="exploration",
+        engine="mc-avk",
+        technique="bounded exhaustive small-scope enumeration of registration sets x all registration orders x four computation routes x transport encodings on the real code, with a differential identity / distinctness oracle",
+        text="Every registration set of a small lattice (<= 4 of 5 certified parties, stakes with ties, a stake above 2^53, two keys sharing a 25-bit prefix) is registered in each of its N! orders on four real routes - mithril-stm KeyRegistration/Clerk, the signer node's SignerBuilder path, the aggregator's SignerBuilder::build_multi_signer path, the client's compute_mithril_stake_distribution_message on a distribution parsed from JSON - and through every encoding the nodes use (json-hex, bytes-hex, message-part JSON, entity JSON, epoch-settings JSON). Key bytes, json-hex text, total stake and each member's slot (read from a real signature) must be identical; signatures must be accepted by a MultiSigner that registered in another order; all keys of the whole 5-party lattice (1468 / 7775 sets) must be pairwise distinct.",
+        note="The aggregator and signer-node routes are mirrored call-for-call (the binaries and the DB store are not linked in this check). phi_f = 1 so that slots are observable. Keys from a constant-seeded ChaCha RNG, KES material from the repository's fixture. N = 5 is covered by two orders only.",
+        design="§4 C06",
+    ),
     "C07": dict(
         level="exploration",
         engine="mc-common",
